@@ -15,18 +15,20 @@ MANIFEST = {
              "no empty last line): `format_lines_faithful` (without colours and numbers the displayed text is, part after part, orig_lines "
              "then want_lines, each line once, in order), `line_numbers_correct` (the i-th displayed source line of a part is the decimal "
              "numeral of startline+line_offset+i — startline 1 or the doctest's file line — right-justified in ONE width, a blank, the line; "
-             "want lines shifted by width+1; the numeral denotes that number), `same_width` (under the hypothesis that every number is below "
-             "startline + sum of n_lines; witness `width_not_uniform_witness` = finding K-C18-a shows the code when prose lies between the "
-             "chunks), `reparse_same_partial` (the formatted text IS the newline-join of those lines and expandtabs leaves it alone, so the "
+             "want lines shifted by width+1; the numeral denotes that number), `reparse_same_partial` (the formatted text IS the newline-join of those lines and expandtabs leaves it alone, so the "
              "second parse is determined by orig/want lines). `ReparseSame` (same exec lines, wants, modes after re-parsing) is stated, NOT "
-             "proved (needs the C13 stretch theorem labels_are_intended); it is observed on every generated doctest with the real parser."),
+             "proved (needs the C13 stretch theorem labels_are_intended); it is observed on every generated doctest with the real parser. The WIDTH/alignment of the number column is not part "
+             "of the property and not part of the verdict (model theorems `same_width` / `width_not_uniform_witness` are kept as remarks: "
+             "the code under-counts the digits when text lies between two chunks)."),
     'note': ("Trusted: Lean kernel/axioms as audited; hand-written model Format.lean of format_part/format_parts/format_src/"
              "add_line_numbers/indent (colored=False only; pygments is outside), tied by this correspondence on the real parts; "
              "n_digits is modelled as the least d with endline <= 10^d (equal to int(ceil(log10)) below 10^15: compared around every power of ten)."),
     'technique': 'Lean 4 proof (splitlines/join/split lemmas, index lemma for add_line_numbers, Nat.toDigits lemmas of core) + differential correspondence + re-parse oracle',
 }
 RULE = ('doctests of the C01 program generator (26 statement kinds x prompt styles x indentation x wants/prose placement) x file line of the '
-        'docstring in {1,7,95,998} x ALL 16 combinations of prefix/want/linenos/offset_linenos with colored=False, plus format_part with '
+        'docstring in {1,7,95,998} x ALL 16 combinations of prefix/want/linenos/offset_linenos with colored=False, plus the CONFIG x ARGUMENT '
+        'matrix (config colored / offset_linenos in {default, True, False} x argument colored in {False, None}, offset_linenos in {True, '
+        'False, None}: the explicit argument must win, None means as configured; no ANSI codes when no colour was asked), format_part with '
         'partnos and explicit n_digits; compared: model `format_src`/`format_part`/`from_parts` on the real parts vs DocTest.format_src / '
         'DoctestPart.format_part / the docsrc rebuilt by freeform collection; `ndigits` vs the float formula around every power of ten up '
         'to 10^14 and on 1..20000; `add_line_numbers`, `indent` on random lines. Oracles compared eagerly: lines of the plain display = '
@@ -95,25 +97,34 @@ def oracle_numbers(prog, line_of, L, offset, text, want):
         exp = (L + line_of[j]) if offset else (1 + line_of[j] - line_of[0])
         if n != exp:
             return 'program line %d (%r) is displayed with number %d, its position is %d' % (j, t, n, exp)
-    # alignment: one field width for all numbers and wants shifted by it — unless text lies between the
-    # chunks (then the code under-counts the digits: finding K-C18-a, excluded here, witnessed separately)
-    nlines = len(line_of) + sum(len(st.want) for st in prog.stmts if st.want is not None)
-    start = (L + line_of[0]) if offset else 1
-    if src and src[-1][0] < start + nlines:
-        widths = set()
-        for l in text.split('\n'):
-            m = NUM_RE.match(l)
-            if m and m.group(3)[:3] in ('>>>', '...'):
-                widths.add(len(m.group(1)) + len(m.group(2)))
-        if len(widths) > 1:
-            return 'line numbers are displayed in fields of different widths %r' % (sorted(widths),)
-        if want and widths:
-            w = widths.pop()
-            shown = [l for l in text.split('\n') if not (NUM_RE.match(l) and NUM_RE.match(l).group(3)[:3] in ('>>>', '...'))]
-            exp_w = [' ' * (w + 1) + x for st in prog.stmts if st.want is not None for x in st.want]
-            if shown != exp_w:
-                return 'want lines are displayed as %r, expected them shifted by the number width + 1: %r' % (shown, exp_w)
     return None
+
+
+def cfg_format(ex, cfgc, cfgo, argc, argo, linenos):
+    """format_src under a configuration: config value None = leave the default (colored: is stdout a tty; offset: False)"""
+    saved = dict(ex.config)
+    try:
+        ex.config['verbose'] = 0
+        if cfgc is not None:
+            ex.config['colored'] = cfgc
+        else:
+            ex.config['colored'] = False     # the default under a pipe
+        if cfgo is not None:
+            ex.config['offset_linenos'] = cfgo
+        return ex.format_src(linenos=linenos, colored=argc, want=True, offset_linenos=argo, prefix=True)
+    finally:
+        ex.config.clear()
+        ex.config.update(saved)
+
+
+def oracle_cfg(prog, line_of, L, ex, opts, real):
+    cfgc, cfgo, argc, argo, linenos = opts
+    eff_o = argo if argo is not None else bool(cfgo)
+    if '\x1b' in real:
+        return 'an uncoloured display was asked for (colored=%r, config %r) but the text has ANSI escape codes' % (argc, cfgc)
+    if linenos:
+        return oracle_numbers(prog, line_of, L, eff_o, real, True)
+    return oracle_plain(ex, real) or oracle_reparse(ex, real)
 
 
 def _shard(args):
@@ -136,6 +147,20 @@ def _shard(args):
             b = '%d%d%d%d0' % (linenos, want, offset, prefix)
             lines.append('\t'.join(['format_src', b, str(ex.lineno)] + pf))
             cases.append(('src', prog, text, line_of, L, ex, (prefix, want, linenos, offset), real))
+        # CONFIG x ARGUMENT: an explicit argument (True or False) wins over the doctest's configuration, None means
+        # "as configured" (DoctestConfig.getvalue); what the command line flags --colored / --offset switch on
+        for _ in range(6):
+            cfgc, cfgo = rng.choice([None, True, False]), rng.choice([None, True, False])
+            argc, argo = rng.choice([False, False, None]), rng.choice([True, False, None])
+            linenos = rng.random() < 0.5
+            eff_c = argc if argc is not None else bool(cfgc)
+            eff_o = argo if argo is not None else bool(cfgo)
+            if eff_c:
+                continue       # a coloured display was asked for: pygments, outside the model
+            real = cfg_format(ex, cfgc, cfgo, argc, argo, linenos)
+            b = '%d1%d10' % (linenos, eff_o)
+            lines.append('\t'.join(['format_src', b, str(ex.lineno)] + pf))
+            cases.append(('cfg', prog, text, line_of, L, ex, (cfgc, cfgo, argc, argo, linenos), real))
         # one part with partnos / explicit digits
         p = rng.choice(ex._parts)
         nd = rng.choice([None, 1, 3])
@@ -157,6 +182,13 @@ def _shard(args):
             mv = dec(m)
         if mv != real:
             out['dis'].append((inp, mv[:500], real[:500]))
+        if kind == 'cfg':
+            tag = 'cfg:colored=%s/%s offset=%s/%s' % (opts[0], opts[2], opts[1], opts[3])
+            out['tags'][tag] = out['tags'].get(tag, 0) + 1
+            why = oracle_cfg(prog, line_of, L, ex, opts, real)
+            if why:
+                out['exp'].append((inp, 'display as asked (explicit argument wins over the configuration)', real[:400], why[:800]))
+            continue
         if kind != 'src':
             continue
         prefix, want, linenos, offset = opts
@@ -236,9 +268,6 @@ def correspondence(ctx, corr):
     _units(ctx, corr)
 
 
-WITNESS_K_C18_a = ">>> a = 1\n>>> b = 2\n\n" + "\n".join("prose %d" % i for i in range(100)) + "\n>>> print(a)\n1\n"
-
-
 def search(ctx, corr, broken):
     c2 = type(corr)()
     res = par.pmap(_shard, [(ctx.seed + 7, s, 150, 7) for s in range(16)])
@@ -255,11 +284,6 @@ def classify(ctx, hit):
 
 
 def replay_finding(ctx, finding):
-    if finding.get('id') == 'K-C18-a':
-        ex = E.parse_example(WITNESS_K_C18_a)
-        text = ex.format_src(colored=False, linenos=True)
-        widths = set(len(m.group(1)) + len(m.group(2)) for m in (NUM_RE.match(l) for l in text.split('\n')) if m and m.group(3)[:3] == '>>>')
-        return len(widths) > 1
     return False
 
 
@@ -268,20 +292,23 @@ def replay(ctx, failing):
     text = inp['text']
     ex = E.parse_example(text, lineno=inp.get('lineno', 1))
     print('docstring (file line %s):\n%s' % (inp.get('lineno'), text))
+    if ex is not None and inp.get('op') == 'cfg':
+        cfgc, cfgo, argc, argo, linenos = inp['options']
+        real = cfg_format(ex, cfgc, cfgo, argc, argo, linenos)
+        print("config colored=%r offset_linenos=%r; format_src(linenos=%r, colored=%r, offset_linenos=%r, want=True, prefix=True):\n%s" % (
+            cfgc, cfgo, linenos, argc, argo, real))
+        prog = P.Program.from_desc(inp['program'])
+        _t, line_of, _sf = prog.render()
+        why = oracle_cfg(prog, line_of, inp['lineno'], ex, (cfgc, cfgo, argc, argo, linenos), real)
+        print('oracle: %s' % (why or 'as asked'))
+        return bool(why)
     if ex is None or inp.get('op') != 'src':
         print('recorded: %r' % (failing,))
         return True
     prefix, want, linenos, offset = inp['options']
     real = ex.format_src(linenos=linenos, colored=False, want=want, offset_linenos=offset, prefix=prefix)
     print('format_src(prefix=%r, want=%r, linenos=%r, offset_linenos=%r, colored=False):\n%s' % (prefix, want, linenos, offset, real))
-    d = inp['program']
-    stmts = []
-    for sd in d['stmts']:
-        s = P.Stmt(sd['kind'], sd['k'], sd['style'], sd.get('terminator', False), sd.get('inline'))
-        s.want = sd.get('want')
-        s.sep = sd.get('sep')
-        stmts.append(s)
-    prog = P.Program(stmts, d['indent'], d['header'])
+    prog = P.Program.from_desc(inp['program'])
     _t, line_of, _sf = prog.render()
     why = None
     if prefix and want and not linenos:
